@@ -1943,7 +1943,16 @@ func gen(seed uint64, n int, w io.Writer) {
 		tagPort := func() string {
 			return lib.Pick(r, []string{fmt.Sprintf("sport:%d", 2000+fl), fmt.Sprintf("cport:%d", 1000+fl), fmt.Sprintf("sport:%d", 1000+fl)})
 		}
-		switch r.Intn(11) {
+		switch r.Intn(12) {
+		case 11: // converter work is queued (tagging completion for a tag with a converter) while a merge job is
+			// parked; the merge completion is delivered last
+			fmt.Fprintf(w, "addtag tag/a red sport:%d\nupdconv tag/a conv1\n", 2003)
+			fmt.Fprintf(w, "pcap q0.pcap 0:100:c:%s\nimport q0.pcap\nrel import\nrel tag\n", word)
+			fmt.Fprintf(w, "pcap q1.pcap 1:200:c:%s 2:201:c:%s\nimport q1.pcap\nrel import\nrel tag\n", word, word)
+			// (a merge of the two files is in flight now)
+			fmt.Fprintf(w, "pcap q2.pcap 3:300:c:%s\nimport q2.pcap\nrel import\nrel tag\nrel convert\nrel merge\n", word)
+			g.tags["tag/a"] = &genTag{}
+			g.flows[0], g.flows[1], g.flows[2], g.flows[3] = true, true, true, true
 		case 10: // a stream is queued for a converter (its output was invalidated while a converter job is parked),
 			// leaves the tag, and the converter is detached from its last tag while the entry is still queued
 			fmt.Fprintf(w, "pcap q0.pcap 0:100:c:%s 1:101:c:%s\nimport q0.pcap\nrel import\n", word, word)
